@@ -362,6 +362,26 @@ def replay(ctx, rp):
     print('property holds on this case'); return 0
 
 
+def finding_key(case, out=''):
+    """key of a reported-but-not-yet-fixed momo defect this failing case is an instance of (for known_findings.txt), else None.
+    (The two index+count overflow keys of round 3 were dropped when /repo commit bcbf078 fixed them: no open findings.)"""
+    return None
+
+
+def report(ctx, bad, harness):
+    """bad: [(case, output, why)] -> violations: unknown failures first (up to 3), then one per known-defect key"""
+    unknown = [b for b in bad if finding_key(b[0]) is None]
+    for (c, o, why) in unknown[:3]:
+        ctx.violation(why, {'case': c, 'impl_output': o, 'harness': harness, 'cmd': 'echo "%s" | build/C15/%s' % (c, harness)}, found_input=True)
+    seen = set()
+    for (c, o, why) in bad:
+        k = finding_key(c)
+        if k is not None and k not in seen:
+            seen.add(k)
+            ctx.violation(why, {'case': c, 'impl_output': o, 'harness': harness, 'cmd': 'echo "%s" | build/C15/%s' % (c, harness)}, found_input=True, key=k)
+    return unknown
+
+
 def oracle3_case(case, out):
     """harness3: the harness's own twins / 'rejected call changed the container' checks"""
     if out.startswith('CRASH') or out.startswith('?') or out == '<missing>':
@@ -441,9 +461,9 @@ def run(ctx):
                 if 'rej=' in o and not o.endswith('rej=0'):
                     ctx.nontrivial.add(c)
             ctx.coverage['other_containers'] = {'cases': len(c2), 'by_kind': {k: sum(1 for c in c2 if c.startswith(k)) for k in ('mm', 'ar', 'sa', 'dt')}}
+            bad2.sort(key=lambda b: finding_key(b[0]) is not None)
             ctx.stage('oracle2', not bad2 and rc == 0, (bad2[0][1] + ' :: ' + bad2[0][0][:300]) if bad2 else err[-300:])
-            for (c, o, why) in bad2[:3]:
-                ctx.violation(why, {'case': c, 'impl_output': o, 'harness': 'harness2', 'cmd': 'echo "%s" | build/C15/harness2' % c}, found_input=True)
+            report(ctx, bad2, 'harness2')
     # ---- third harness: histories on HashMultiMap / arrays / DataTable against the extracted models MultiMap.v, Arr.v, Table.v
     h3 = built.get('harness3')
     if ('harness3.cpp', 'harness3', []) in jobs:
@@ -461,9 +481,7 @@ def run(ctx):
                 mism3, _ = ctx.correspond('model-vs-multimap-arrays-table', keep, [h3], [ctx.model_exe])
                 ctx.tie_obligations.append({'name': 'extracted MultiMap.v / Arr.v / Table.v == real HashMultiMap / Array / SegmentedArray / DataTable (every call outcome, both version cells, contents) on %d histories' % len(keep),
                                             'ok': not mism3})
-                for (i, c, a, b) in mism3[:3]:
-                    ctx.violation('model and implementation disagree: impl=%s model=%s' % (a[-200:], b[-200:]),
-                                  {'case': c, 'impl': a, 'model': b, 'harness': 'harness3', 'cmd': 'echo "%s" | build/C15/harness3' % c}, found_input=True)
+                report(ctx, [(c, a, 'model and implementation disagree: impl=%s model=%s' % (a[-200:], b[-200:])) for (i, c, a, b) in mism3], 'harness3')
             rc, l3, err = run_harness(ctx, h3, c3, 'oracle3')
             ctx.evaluations += len(c3)
             bad3 = [(c, o, oracle3_case(c, o)[0]) for c, o in zip(c3, l3) if oracle3_case(c, o)]
@@ -471,9 +489,9 @@ def run(ctx):
                 tk = o.split(' | ')[0].split()
                 if 'R' in tk and any(x.startswith('A') for x in tk):
                     ctx.nontrivial.add(c)
+            bad3.sort(key=lambda b: finding_key(b[0]) is not None)
             ctx.stage('oracle3', not bad3 and rc == 0, (bad3[0][2] + ' :: ' + bad3[0][0][:300]) if bad3 else err[-300:])
-            for (c, o, why) in bad3[:3]:
-                ctx.violation(why, {'case': c, 'impl_output': o, 'harness': 'harness3', 'cmd': 'echo "%s" | build/C15/harness3' % c}, found_input=True)
+            report(ctx, bad3, 'harness3')
     for c in cases[::max(1, len(cases) // 6)][:6]:
         ctx.add_sample(c[:400])
     ctx.coverage['input_distribution'] = {k: sum(1 for c in cases if c.startswith(k)) for k in KINDS}
